@@ -30,10 +30,36 @@ type pfbIter struct {
 // between the room in the caller's buffer and the remaining segment length (-1, 0, +1, or 2 for
 // "not fixed").
 func (c *Ctx) pfbIteration(fn *ssa.Function, H *ssa.BasicBlock, state int64, hdr map[int]int64, cmp int) pfbIter {
+	return c.pfbIterationLen(fn, H, state, hdr, cmp, 0)
+}
+
+// pfbIterationLen: as pfbIteration; lenZero fixes the cell "the segment length decoded in this
+// iteration is zero" (+1), "is not zero" (-1) or leaves it open (0).
+func (c *Ctx) pfbIterationLen(fn *ssa.Function, H *ssa.BasicBlock, state int64, hdr map[int]int64, cmp int, lenZero int) pfbIter {
+	return c.pfbIterationOpt(fn, H, state, hdr, cmp, pfbOpt{lenZero: lenZero, hdrK: -1})
+}
+
+// pfbOpt: further cells of the table.  readErr: the read of a data state fails with the error
+// of that name (EOF, ErrUnexpectedEOF, or `readerr` for any other error); hdrK/hdrErr: the header read delivers hdrK bytes and the error named hdrErr
+// (hdrK < 0: a full header, no error).
+type pfbOpt struct {
+	lenZero int
+	readErr string
+	hdrK    int
+	hdrErr  string
+}
+
+func isErrSym(v sv) bool {
+	return v.k == svSym && (strings.HasPrefix(v.s, "Err") || v.s == "EOF" || v.s == "readerr")
+}
+
+func (c *Ctx) pfbIterationOpt(fn *ssa.Function, H *ssa.BasicBlock, state int64, hdr map[int]int64, cmp int, opt pfbOpt) pfbIter {
+	lenZero := opt.lenZero
 	T := c.typeObj("pfb", "pfbReader")
 	_ = T
 	stateF, lenF, tailF, srcF := c.fld("pfb.state"), c.fld("pfb.len"), c.fld("pfb.tail"), c.fld("pfb.r")
 	ev := &ssaEval{c: c, bind: map[ssa.Value]sv{}, mem: map[string]sv{}}
+	hdrBase := "" // address of the buffer the header was read into
 	ev.load = func(ld *ssa.UnOp, addr sv) (sv, bool) {
 		a := addr.s
 		switch {
@@ -49,7 +75,14 @@ func (c *Ctx) pfbIteration(fn *ssa.Function, H *ssa.BasicBlock, state int64, hdr
 			i := strings.LastIndex(a, ".")
 			return symV(a[i+1:]), true
 		}
-		if m := cellIndex.FindStringSubmatch(a); m != nil {
+		m := cellIndex.FindStringSubmatch(a)
+		if m == nil && hdrBase != "" && strings.HasPrefix(a, hdrBase+"[") && strings.HasSuffix(a, "]") {
+			// the header buffer is whatever was handed to the header read
+			if _, err := fmt.Sscan(a[len(hdrBase)+1:len(a)-1], new(int)); err == nil {
+				m = []string{a, a[len(hdrBase)+1 : len(a)-1]}
+			}
+		}
+		if m != nil {
 			var k int
 			fmt.Sscan(m[1], &k)
 			if v, ok := hdr[k]; ok {
@@ -59,8 +92,44 @@ func (c *Ctx) pfbIteration(fn *ssa.Function, H *ssa.BasicBlock, state int64, hdr
 		}
 		return sv{}, false
 	}
+	hdrByte := func(k int) sv {
+		if v, ok := hdr[k]; ok {
+			return intV(v)
+		}
+		return symV(fmt.Sprintf("b%d", k))
+	}
+	// the length decoded from the header in this iteration (the last value stored in the length cell)
+	decodedLen := func() (sv, bool) {
+		for i := len(ev.effects) - 1; i >= 0; i-- {
+			if ef := ev.effects[i]; ef.what == "store" && strings.HasSuffix(ef.addr, "."+lenF) {
+				return ef.args[0], true
+			}
+		}
+		return sv{}, false
+	}
 	ev.oracle = func(op token.Token, x, y sv) (bool, bool) {
 		xs, ys := x.String(), y.String()
+		// the decoded length (an unsigned 32-bit quantity) against a constant, in the cell fixed
+		// by lenZero
+		if lenZero != 0 {
+			if l, ok := decodedLen(); ok && l.k == svSym {
+				lx, ky, o := x, y, op
+				if ys == l.String() {
+					lx, ky, o = y, x, flipCmp(op)
+				}
+				if lx.String() == l.String() && ky.k == svInt {
+					if lenZero > 0 {
+						return cmpHolds(o, cmpInt(0, ky.i)), true
+					}
+					if ky.i <= 0 { // l >= 1
+						return cmpHolds(o, 1), true
+					}
+					if ky.i == 1 && (o == token.GEQ || o == token.LSS) {
+						return o == token.GEQ, true
+					}
+				}
+			}
+		}
 		// room in the caller's buffer: len(b) > 0 holds inside the loop
 		if xs == "len(b)" && y.k == svInt && y.i == 0 {
 			switch op {
@@ -96,6 +165,16 @@ func (c *Ctx) pfbIteration(fn *ssa.Function, H *ssa.BasicBlock, state int64, hdr
 			}
 		}
 	other:
+		// an error symbol against nil, two error symbols against each other (sentinels are
+		// distinct values; `readerr` stands for an error that is none of the sentinels)
+		if isErrSym(x) && y.k == svNil || isErrSym(y) && x.k == svNil {
+			if op == token.EQL || op == token.NEQ {
+				return op == token.NEQ, true
+			}
+		}
+		if isErrSym(x) && isErrSym(y) && (op == token.EQL || op == token.NEQ) {
+			return (x.s == y.s) == (op == token.EQL), true
+		}
 		// error values against nil: reads succeed
 		if y.k == svNil && x.k == svNil {
 			return op == token.EQL, true
@@ -108,20 +187,90 @@ func (c *Ctx) pfbIteration(fn *ssa.Function, H *ssa.BasicBlock, state int64, hdr
 	}
 	ev.call = func(call ssa.CallInstruction, args []sv) (sv, bool) {
 		n := callName(call)
+		if little, size, ok := byteOrderRead(n); ok && len(args) == 2 {
+			// encoding/binary on a slice of the header array: the same term as the hand-written
+			// shifts and ors (bytes widen without sign, the result is unsigned)
+			a := args[1]
+			if a.k == svList && a.n >= int64(size) {
+				if el, ok := ev.elems(a); ok {
+					var parts []sv
+					for i := 0; i < size; i++ {
+						sh := int64(8 * i)
+						if !little {
+							sh = int64(8 * (size - 1 - i))
+						}
+						if sh == 0 {
+							parts = append(parts, el[i])
+						} else {
+							parts = append(parts, term("<<", el[i], intV(sh)))
+						}
+					}
+					return term("|", parts...), true
+				}
+			}
+			if a.op == "slice" && len(a.args) == 3 && a.args[0].k == svAddr && (hdrBase == a.args[0].s || strings.HasPrefix(a.args[0].s, "cell") && !strings.ContainsAny(a.args[0].s, ".[")) {
+				lo := 0
+				if a.args[1].k == svInt {
+					lo = int(a.args[1].i)
+				} else if a.args[1].s != "_" {
+					return sv{}, false
+				}
+				var parts []sv
+				for i := 0; i < size; i++ {
+					sh := int64(8 * i)
+					if !little {
+						sh = int64(8 * (size - 1 - i))
+					}
+					if sh == 0 {
+						parts = append(parts, hdrByte(lo+i))
+					} else {
+						parts = append(parts, term("<<", hdrByte(lo+i), intV(sh)))
+					}
+				}
+				return term("|", parts...), true
+			}
+			return sv{}, false
+		}
 		switch {
 		case n == "io.ReadFull" && len(args) == 2:
 			ev.effects = append(ev.effects, ssaEffect{ins: call, what: "readfull", args: args})
 			n := term("len", args[1])
+			isHeader := false
 			if sl, ok := call.Common().Args[1].(*ssa.Slice); ok {
 				if p, ok := sl.X.Type().Underlying().(*types.Pointer); ok {
 					if arr, ok := p.Elem().Underlying().(*types.Array); ok && sl.Low == nil && sl.High == nil {
 						n = intV(arr.Len())
+						isHeader = true
 					}
 				}
+			}
+			if state == 0 {
+				// in the header state whatever is read is the header
+				isHeader = true
+				if a := args[1]; a.op == "slice" && len(a.args) == 3 && a.args[0].k == svAddr && a.args[1].s == "_" {
+					hdrBase = a.args[0].s
+					if a.args[2].k == svInt {
+						n = intV(a.args[2].i)
+					}
+				} else if a.k == svList {
+					for i := int64(0); i < a.n; i++ {
+						ev.lists[a.s][a.i+i] = hdrByte(int(i))
+					}
+					n = intV(a.n)
+				}
+			}
+			if isHeader && opt.hdrK >= 0 {
+				return sv{k: svTuple, tup: []sv{intV(int64(opt.hdrK)), symV(opt.hdrErr)}}, true
+			}
+			if !isHeader && opt.readErr != "" {
+				return sv{k: svTuple, tup: []sv{symV("k"), symV(opt.readErr)}}, true
 			}
 			return sv{k: svTuple, tup: []sv{n, sv{k: svNil}}}, true
 		case strings.HasPrefix(n, "invoke ") && strings.HasSuffix(n, ".Read") && len(args) == 2:
 			ev.effects = append(ev.effects, ssaEffect{ins: call, what: "read", args: args})
+			if opt.readErr != "" {
+				return sv{k: svTuple, tup: []sv{symV("k"), symV(opt.readErr)}}, true
+			}
 			return sv{k: svTuple, tup: []sv{symV("k"), sv{k: svNil}}}, true
 		}
 		return sv{}, false
@@ -201,6 +350,34 @@ func (c *Ctx) pfbTables() {
 			}
 		}
 	}
+	// ---- an accepted header leaves the decoder in the state of its type, whatever the four
+	// bytes after the type are: the end marker (type 3) has no length field, so nothing that
+	// depends on those bytes may take the decoder out of the final state; a data segment of
+	// length zero may equally well go straight back to the header state
+	for b1 := int64(1); b1 <= 3 && bad == ""; b1++ {
+		for _, lz := range []int{1, -1} {
+			it := c.pfbIterationLen(fn, H, 0, map[int]int64{0: 0x80, 1: b1}, 2, lz)
+			cell := map[int]string{1: "zero", -1: "not zero"}[lz]
+			if !it.back || it.why != "" {
+				bad = fmt.Sprintf("header type %d with the four bytes after the type %s: the iteration cannot be followed to its end (%s)", b1, cell, it.why)
+				break
+			}
+			var st sv
+			for _, ef := range it.effects {
+				if ef.what == "store" && strings.HasSuffix(ef.addr, "."+stateF) {
+					st = ef.args[0]
+				}
+			}
+			okState := st.k == svInt && (st.i == b1 || (b1 != 3 && lz > 0 && st.i == 0))
+			if !okState {
+				bad = fmt.Sprintf("header type %d with the four bytes after the type %s leaves the decoder in state %s, expected %d", b1, cell, st, b1)
+				if b1 == 3 {
+					bad += ": the end marker has no length field, whatever follows it must not take the decoder out of the final state"
+				}
+				break
+			}
+		}
+	}
 	c.check(bad == "" && nAccepted == 3, "PFB-HEADER", fname, "exactly marker 0x80 with type 1, 2 or 3 is accepted, anything else gives ErrInvalidPFB; the type becomes the state; length = little-endian bytes 2..5", fn.Pos(), "65536 header prefixes evaluated", "header: "+bad)
 
 	// ---- states: every value the state can take is handled (no spinning)
@@ -262,12 +439,13 @@ func (c *Ctx) pfbTables() {
 // symbolic bytes; the segment bytes read are symbols d0, d1, …; the nibble encoder is opaque.
 // Afterwards position i of the buffer must hold hex(high nibble of d[i/2]) for even i and
 // hex(low nibble) for odd i — which is only the case if the in-place expansion runs from the back.
-func (c *Ctx) pfbExpandRule() {
+func (c *Ctx) pfbExpandRule() *pfbEncoders {
+	enc := &pfbEncoders{fns: map[*ssa.Function]bool{}, tables: map[string]bool{}}
 	fn := c.method("pfb", "pfbReader", "Read")
 	fname := c.fname(fn)
 	H := loopHeader(fn)
 	if H == nil {
-		return
+		return enc
 	}
 	stateF, lenF, tailF, srcF := c.fld("pfb.state"), c.fld("pfb.len"), c.fld("pfb.tail"), c.fld("pfb.r")
 	var bad []string
@@ -299,6 +477,11 @@ func (c *Ctx) pfbExpandRule() {
 		}
 		ev.call = func(call ssa.CallInstruction, args []sv) (sv, bool) {
 			if call == nil {
+				// the nibble encoder as a table: a constant string indexed by a value that is not fixed
+				if len(args) == 3 && args[0].s == "strindex" && args[1].k == svString && args[2].k == svSym {
+					enc.tables[args[1].s] = true
+					return symV("hex(" + args[2].String() + ")"), true
+				}
 				return sv{}, false
 			}
 			if callName(call) == "io.ReadFull" && len(args) == 2 && args[1].k == svList {
@@ -308,6 +491,7 @@ func (c *Ctx) pfbExpandRule() {
 				return sv{k: svTuple, tup: []sv{intV(args[1].n), {k: svNil}}}, true
 			}
 			if g := call.Common().StaticCallee(); g != nil && c.inModule(g) && ev.noInline(g) && len(args) == 1 {
+				enc.fns[g] = true
 				return symV("hex(" + args[0].String() + ")"), true
 			}
 			return sv{}, false
@@ -384,4 +568,57 @@ func (c *Ctx) pfbExpandRule() {
 		}
 	}
 	c.check(len(bad) == 0, "PFB-EXPAND", fname, "in-place expansion from the back: position i gets the high (i even) or low (i odd) nibble of byte i/2; an odd buffer keeps the last digit pending", fn.Pos(), "buffers of 1, 2, 4, 5 bytes evaluated", "hex expansion: "+joinMax(bad, 2))
+	return enc
+}
+
+// pfbEncoders: the nibble encoders met by the evaluation of the binary state — module functions
+// from one byte to one byte, and constant strings indexed by the nibble.
+type pfbEncoders struct {
+	fns    map[*ssa.Function]bool
+	tables map[string]bool
+}
+
+// pfbHexRule: every nibble encoder the binary state uses maps 0..15 to the lower-case
+// hexadecimal digits.  The encoders are found by their role in the expansion (pfbExpandRule), a
+// function is evaluated on the sixteen values, a table is read.
+func (c *Ctx) pfbHexRule(enc *pfbEncoders) {
+	fn := c.method("pfb", "pfbReader", "Read")
+	const digits = "0123456789abcdef"
+	n := 0
+	var fns []*ssa.Function
+	for g := range enc.fns {
+		fns = append(fns, g)
+	}
+	sort.Slice(fns, func(i, j int) bool { return fns[i].String() < fns[j].String() })
+	for _, g := range fns {
+		n++
+		bad := ""
+		for v := int64(0); v < 16; v++ {
+			ev := &ssaEval{c: c, bind: map[ssa.Value]sv{}, mem: map[string]sv{}}
+			ret := ev.runFunc(g, []sv{intV(v)})
+			if len(ret) != 1 || ret[0].k != svInt || ret[0].i != int64(digits[v]) {
+				bad = fmt.Sprintf("nibble %d → %v %s, expected %q", v, ret, ev.why, rune(digits[v]))
+			}
+		}
+		c.check(bad == "", "PFB-HEX", c.fname(g), "nibbles 0..15 → lower-case hexadecimal digits", g.Pos(), "16 values evaluated", "hex encoder: "+bad)
+	}
+	var tabs []string
+	for t := range enc.tables {
+		tabs = append(tabs, t)
+	}
+	sort.Strings(tabs)
+	for _, t := range tabs {
+		n++
+		bad := ""
+		for v := 0; v < 16; v++ {
+			if v >= len(t) || t[v] != digits[v] {
+				bad = fmt.Sprintf("entry %d of the digit table %q is not %q", v, t, rune(digits[v]))
+				break
+			}
+		}
+		c.check(bad == "", "PFB-HEX", c.fname(fn), "nibbles 0..15 → lower-case hexadecimal digits", fn.Pos(), "digit table read", "hex encoder: "+bad)
+	}
+	if n == 0 {
+		c.undecided("PFB-HEX", c.fname(fn), "nibble encoder", fn.Pos(), "no nibble encoder (a byte → byte function or a constant digit string) was met while evaluating the binary state")
+	}
 }
